@@ -39,18 +39,18 @@ func positiveConstEq(pc *Cond, key string) []string {
 
 // pairNext: for a call helper(head, rest) the continuation lines must start right after the line the
 // head was taken from: head derives from X[i], rest = X[i+1:].
-func pairNext(call *ssa.Call) (bool, string) {
+func pairNext(call *ssa.Call) (int, string) {
 	if len(call.Call.Args) < 2 {
-		return false, "fewer than two arguments"
+		return unknown, "fewer than two arguments"
 	}
 	if _, p0 := call.Call.Args[0].(*ssa.Parameter); p0 {
 		if _, p1 := call.Call.Args[1].(*ssa.Parameter); p1 {
-			return true, "" // pass-through of an already paired (head, rest)
+			return holds, "" // pass-through of an already paired (head, rest)
 		}
 	}
 	sl, ok := call.Call.Args[1].(*ssa.Slice)
 	if !ok || sl.Low == nil || sl.High != nil {
-		return false, "continuation argument is not X[k:]"
+		return unknown, "continuation argument is not X[k:]"
 	}
 	// find an IndexAddr / Index on the same X feeding the head
 	var idx ssa.Value
@@ -83,14 +83,22 @@ func pairNext(call *ssa.Call) (bool, string) {
 	}
 	walk(call.Call.Args[0], 0)
 	if idx == nil {
-		return false, "the head is not taken from a line of the same list the continuation slices"
+		return unknown, "the head is not visibly taken from a line of the same list the continuation slices"
 	}
-	if b, ok := sl.Low.(*ssa.BinOp); ok && b.Op.String() == "+" {
-		if c, ok := b.Y.(*ssa.Const); ok && c.Value != nil && c.Value.ExactString() == "1" && b.X == idx {
-			return true, ""
+	// Low must be idx+1: compare as linear forms over the same base
+	tb := newTB(call.Parent())
+	lb, lk := tb.T(sl.Low).linear()
+	ib, ik := tb.T(idx).linear()
+	if lb != nil && ib != nil && lb.String() == ib.String() {
+		if lk-ik == 1 {
+			return holds, ""
 		}
+		return broken, fmt.Sprintf("continuation lines start at (index of the head line)%+d, want +1", lk-ik)
 	}
-	return false, "continuation lines do not start at (index of the head line)+1"
+	if lb == nil && ib != nil {
+		return broken, fmt.Sprintf("continuation lines start at the fixed offset %d while the head line is found at a variable index", lk)
+	}
+	return unknown, "continuation start and head index are not comparable"
 }
 
 func ruleC01(c *Ctx) {
@@ -133,9 +141,25 @@ func ruleC01(c *Ctx) {
 		}
 	})
 	if key == "" {
-		c.bad("FIELDMAP-R", "keyword dispatch", parse.Pos(), "no comparison of the line's keyword with \"LOCUS\" found (unrecognised shape)")
+		c.undecided("FIELDMAP-R", "keyword dispatch", parse.Pos(), "no comparison of the line's keyword with \"LOCUS\" found")
 		return
 	}
+	// every constant the keyword is compared with (the dispatch's case set)
+	caseSet := map[string]bool{}
+	eachInstr(parse, func(i ssa.Instruction) {
+		if bo, ok := i.(*ssa.BinOp); ok {
+			t := tb.T(bo)
+			if t.isBin("==") || t.isBin("!=") {
+				for k := 0; k < 2; k++ {
+					if t.Args[k].String() == key {
+						if s, ok := t.Args[1-k].constStr(); ok {
+							caseSet[s] = true
+						}
+					}
+				}
+			}
+		}
+	})
 	// Meta and Sequence locals
 	var metaA, seqA *ssa.Alloc
 	eachInstr(parse, func(i ssa.Instruction) {
@@ -149,7 +173,7 @@ func ruleC01(c *Ctx) {
 		}
 	})
 	if metaA == nil || seqA == nil {
-		c.bad("FIELDMAP-R", "locals", parse.Pos(), "Parse does not assemble a poly.Meta and a poly.Sequence local (unrecognised shape)")
+		c.undecided("FIELDMAP-R", "locals", parse.Pos(), "Parse does not assemble a poly.Meta and a poly.Sequence local")
 		return
 	}
 	want := map[string]struct{ field, producer string }{
@@ -190,25 +214,50 @@ func ruleC01(c *Ctx) {
 		pc := pathCond(tb, parse.Blocks[0], st.Block())
 		kws := positiveConstEq(pc, key)
 		if len(kws) != 1 {
-			c.bad("FIELDMAP-R", "store to Meta."+fld, st.Pos(), fmt.Sprintf("Meta.%s is stored under keywords %v (want exactly one keyword case)", fld, kws))
+			c.undecided("FIELDMAP-R", "store to Meta."+fld, st.Pos(), fmt.Sprintf("Meta.%s is stored under keywords %v (want exactly one keyword case)", fld, kws))
 			continue
 		}
 		kw := kws[0]
 		v := tb.T(st.Val)
 		switch kw {
 		case "SOURCE":
+			fieldOK := fld == "Source" || fld == "Organism"
 			okS := (fld == "Source" && v.Op == "extract" && v.Name == "0" || fld == "Organism" && v.Op == "extract" && v.Name == "1") && strings.HasPrefix(v.Args[0].Name, "poly/io/genbank.getSourceOrganism")
 			seenKW[kw+"/"+fld] = true
-			c.check(okS, "FIELDMAP-R", "SOURCE->"+fld, st.Pos(), "SOURCE block fills Source (1st result) and Organism (2nd result)", "under SOURCE, Meta."+fld+" = "+short(v.String()))
+			stt := holds
+			if !fieldOK {
+				stt = broken
+			} else if !okS {
+				stt = unknown
+				if v.Op == "extract" && strings.HasPrefix(v.Args[0].Name, "poly/io/genbank.getSourceOrganism") {
+					stt = broken // the two results are crossed
+				}
+			}
+			c.judge(stt, "FIELDMAP-R", "SOURCE->"+fld, st.Pos(), "SOURCE block fills Source (1st result) and Organism (2nd result)", "under SOURCE, Meta."+fld+" = "+short(v.String()))
 		case "REFERENCE":
 			sites := topAppendSites(v)
 			okR := fld == "References" && len(sites) == 1 && sites[0].Elem.isCall("poly/io/genbank.getReference")
 			seenKW[kw] = true
-			c.check(okR, "FIELDMAP-R", "REFERENCE->append(References)", st.Pos(), "each REFERENCE block appends one parsed reference, in order", "under REFERENCE, Meta."+fld+" = "+short(v.String()))
+			stt := holds
+			if fld != "References" {
+				stt = broken
+			} else if !okR {
+				stt = unknown
+			}
+			c.judge(stt, "FIELDMAP-R", "REFERENCE->append(References)", st.Pos(), "each REFERENCE block appends one parsed reference, in order", "under REFERENCE, Meta."+fld+" = "+short(v.String()))
 		default:
 			exp, known := want[kw]
 			seenKW[kw] = true
-			c.check(known && exp.field == fld && producerOf(v) == exp.producer, "FIELDMAP-R", kw+"->"+exp.field, st.Pos(), "keyword "+kw+" fills Meta."+fld+" via "+producerOf(v), fmt.Sprintf("keyword %s stores %s into Meta.%s; the format assigns %s to Meta.%s", kw, producerOf(v), fld, kw, exp.field))
+			stt := holds
+			switch {
+			case !known:
+				stt = unknown
+			case exp.field != fld:
+				stt = broken
+			case producerOf(v) != exp.producer:
+				stt = unknown
+			}
+			c.judge(stt, "FIELDMAP-R", kw+"->"+exp.field, st.Pos(), "keyword "+kw+" fills Meta."+fld+" via "+producerOf(v), fmt.Sprintf("keyword %s stores %s into Meta.%s; the format assigns %s to Meta.%s", kw, producerOf(v), fld, kw, exp.field))
 		}
 	}
 	// Other map update
@@ -222,28 +271,56 @@ func ruleC01(c *Ctx) {
 		pc := pathCond(tb, parse.Blocks[0], mu.Block())
 		kws := positiveConstEq(pc, key)
 		k, v := tb.T(mu.Key).String(), tb.T(mu.Value)
-		c.check(len(kws) == 0 && k == key && v.isCall("poly/io/genbank.joinSubLines"), "FIELDMAP-R", "other keyword->Other[keyword]", mu.Pos(), "a keyword without its own case is kept under its own name with its joined block", fmt.Sprintf("the catch-all stores %s under %s in a case for %v", short(v.String()), short(k), kws))
+		stt := holds
+		switch {
+		case len(kws) > 0:
+			stt = broken // the catch-all sits inside a specific keyword's case
+		case k != key:
+			stt = stateOf(false, nil, tb.T(mu.Key))
+		case !v.isCall("poly/io/genbank.joinSubLines"):
+			stt = unknown
+		}
+		c.judge(stt, "FIELDMAP-R", "other keyword->Other[keyword]", mu.Pos(), "a keyword without its own case is kept under its own name with its joined block", fmt.Sprintf("the catch-all stores %s under %s (dispatch keyword is %s) in a case for %v", short(v.String()), k, key, kws))
 	})
 	if nOther != 1 {
-		c.bad("FIELDMAP-R", "other keyword->Other[keyword]#count", parse.Pos(), fmt.Sprintf("%d map updates in Parse, want the single catch-all", nOther))
+		c.undecided("FIELDMAP-R", "other keyword->Other[keyword]#count", parse.Pos(), fmt.Sprintf("%d map updates in Parse, want the single catch-all", nOther))
 	}
 	// FEATURES / ORIGIN
 	for _, cl := range callsIn(parse, "poly/io/genbank.getFeatures") {
 		pc := pathCond(tb, parse.Blocks[0], cl.Block())
 		seenKW["FEATURES"] = true
-		c.check(fmt.Sprint(positiveConstEq(pc, key)) == "[FEATURES]", "FIELDMAP-R", "FEATURES->feature table", cl.Pos(), "the feature table is parsed from the lines after FEATURES", "getFeatures is called under "+fmt.Sprint(positiveConstEq(pc, key)))
+		kk := positiveConstEq(pc, key)
+		stt := holds
+		if len(kk) == 1 && kk[0] != "FEATURES" {
+			stt = broken
+		} else if len(kk) != 1 {
+			stt = unknown
+		}
+		c.judge(stt, "FIELDMAP-R", "FEATURES->feature table", cl.Pos(), "the feature table is parsed from the lines after FEATURES", "getFeatures is called under "+fmt.Sprint(kk))
 	}
 	for _, st := range tb.stores[seqA] {
 		_, p, _ := rootAlloc(st.Addr)
 		if len(p) == 1 && p[0] == ".Sequence" {
 			pc := pathCond(tb, parse.Blocks[0], st.Block())
 			seenKW["ORIGIN"] = true
-			c.check(fmt.Sprint(positiveConstEq(pc, key)) == "[ORIGIN]" && tb.T(st.Val).isCall("poly/io/genbank.getSequence"), "FIELDMAP-R", "ORIGIN->Sequence", st.Pos(), "the sequence is read from the lines after ORIGIN", "Sequence.Sequence = "+short(tb.T(st.Val).String())+" under "+fmt.Sprint(positiveConstEq(pc, key)))
+			kk := positiveConstEq(pc, key)
+			stt := holds
+			if len(kk) == 1 && kk[0] != "ORIGIN" {
+				stt = broken
+			} else if len(kk) != 1 || !tb.T(st.Val).isCall("poly/io/genbank.getSequence") {
+				stt = unknown
+			}
+			c.judge(stt, "FIELDMAP-R", "ORIGIN->Sequence", st.Pos(), "the sequence is read from the lines after ORIGIN", "Sequence.Sequence = "+short(tb.T(st.Val).String())+" under "+fmt.Sprint(kk))
 		}
 	}
 	for _, kw := range []string{"LOCUS", "DEFINITION", "ACCESSION", "VERSION", "KEYWORDS", "SOURCE/Source", "SOURCE/Organism", "REFERENCE", "FEATURES", "ORIGIN"} {
 		if !seenKW[kw] {
-			c.bad("FIELDMAP-R", "missing case "+kw, parse.Pos(), "no case handles "+kw)
+			base := strings.SplitN(kw, "/", 2)[0]
+			if !caseSet[base] {
+				c.bad("FIELDMAP-R", "missing case "+kw, parse.Pos(), "the keyword dispatch compares the keyword with "+fmt.Sprint(len(caseSet))+" constants but never with "+base+": that block is not parsed")
+			} else {
+				c.undecided("FIELDMAP-R", "missing case "+kw, parse.Pos(), "the case for "+base+" exists but its effect on the record was not recognised")
+			}
 		}
 	}
 	// repo's own table agrees with the dispatch
@@ -258,7 +335,13 @@ func ruleC01(c *Ctx) {
 						missing = append(missing, k)
 					}
 				}
-				c.check(len(missing) == 0 && len(av.Elts) >= 9, "FIELDMAP-R", "top-level keyword table agrees with the dispatch", av.Pos, fmt.Sprintf("%d table entries all have a case", len(av.Elts)), "keywords in the table without a case: "+strings.Join(missing, ","))
+				for _, m := range missing {
+					if caseSet[m] {
+						missing = nil // the case exists; only its effect was not recognised
+						break
+					}
+				}
+				c.check(len(missing) == 0, "FIELDMAP-R", "top-level keyword table agrees with the dispatch", av.Pos, fmt.Sprintf("%d table entries all have a case", len(av.Elts)), "keywords in the table without a case: "+strings.Join(missing, ","))
 			}
 		}
 	}
@@ -301,20 +384,44 @@ func ruleC01(c *Ctx) {
 				}
 				pc := pathCond(rtb, gr.Blocks[0], st.Block())
 				kws := positiveConstEq(pc, skey)
-				good := len(kws) == 1 && sub[kws[0]] == fld && rtb.T(st.Val).isCall("poly/io/genbank.joinSubLines")
+				stt := holds
 				if len(kws) == 1 {
 					seenSub[kws[0]] = true
+					if sub[kws[0]] != fld {
+						stt = broken
+					} else if !rtb.T(st.Val).isCall("poly/io/genbank.joinSubLines") {
+						stt = unknown
+					}
+				} else {
+					stt = unknown
 				}
-				c.check(good, "FIELDMAP-R", "reference:"+strings.Join(kws, "|")+"->"+fld, st.Pos(), "sub-keyword fills the same-named Reference field with its joined block", fmt.Sprintf("Reference.%s is stored under %v", fld, kws))
+				c.judge(stt, "FIELDMAP-R", "reference:"+strings.Join(kws, "|")+"->"+fld, st.Pos(), "sub-keyword fills the same-named Reference field with its joined block", fmt.Sprintf("Reference.%s is stored under %v", fld, kws))
 			}
 		}
+		subCases := map[string]bool{}
+		eachInstr(gr, func(i ssa.Instruction) {
+			if bo, ok := i.(*ssa.BinOp); ok {
+				t := rtb.T(bo)
+				if t.isBin("==") {
+					for k := 0; k < 2; k++ {
+						if s, ok := t.Args[k].constStr(); ok {
+							subCases[s] = true
+						}
+					}
+				}
+			}
+		})
 		for k := range sub {
 			if !seenSub[k] {
-				c.bad("FIELDMAP-R", "reference:missing "+k, gr.Pos(), "no case handles the reference sub-keyword "+k)
+				if refA != nil && len(subCases) >= 3 && !subCases[k] {
+					c.bad("FIELDMAP-R", "reference:missing "+k, gr.Pos(), "the reference sub-dispatch has cases for "+fmt.Sprint(len(subCases))+" keywords but none for "+k+": that line is dropped")
+				} else {
+					c.undecided("FIELDMAP-R", "reference:missing "+k, gr.Pos(), "handling of the reference sub-keyword "+k+" was not recognised")
+				}
 			}
 		}
 	} else {
-		c.missing("FIELDMAP-R", "getReference", "genbank.getReference")
+		c.missingHelper("FIELDMAP-R", "getReference", "genbank.getReference")
 	}
 	// PAIR-NEXT over every joinSubLines / getSourceOrganism / getReference call in the package
 	for _, f := range w.moduleFuncs() {
@@ -329,42 +436,52 @@ func ruleC01(c *Ctx) {
 			n := calleeName(cl)
 			if n == "poly/io/genbank.joinSubLines" || n == "poly/io/genbank.getSourceOrganism" || n == "poly/io/genbank.getReference" {
 				c.useFn(f)
-				ok, why := pairNext(cl)
-				c.check(ok, "PAIR-NEXT", fname(f)+"->"+strings.TrimPrefix(n, "poly/io/genbank."), cl.Pos(), "head = X[i], continuation = X[i+1:]", "continuation lines are mis-aligned with the head line: "+why+" (a block's wrapped lines are lost or mixed with another block)")
+				stt, why := pairNext(cl)
+				c.judge(stt, "PAIR-NEXT", fname(f)+"->"+strings.TrimPrefix(n, "poly/io/genbank."), cl.Pos(), "head = X[i], continuation = X[i+1:]", "continuation lines are mis-aligned with the head line: "+why+" (a block's wrapped lines are lost or mixed with another block)")
 			}
 		})
 	}
 	// TERM: features attached in order
 	af, n := findCall(parse, "(*poly.Sequence).AddFeature")
-	goodT := n == 1
-	whyT := fmt.Sprintf("%d AddFeature calls, want 1", n)
-	if goodT {
+	if n != 1 {
+		c.undecided("TERM", "every parsed feature added via AddFeature, in order", parse.Pos(), fmt.Sprintf("%d AddFeature calls in Parse, want 1", n))
+	} else {
 		fa, _ := unwrap(af.Common().Args[1]).(*ssa.Alloc)
 		recv := unwrap(af.Common().Args[0])
-		feat := ""
+		var featT *Term
 		if fa != nil {
-			feat = tb.at(fa, nil, af).String()
+			featT = tb.at(fa, nil, af)
 		}
 		hdr := enclosingLoopHeader(af.Block())
-		uncond := hdr != nil && len(hdr.Succs) == 2 && pathCond(tb, hdr.Succs[0], af.Block()).Op == "true"
-		goodT = recv == ssa.Value(seqA) && strings.HasPrefix(feat, "each(") && strings.Contains(feat, "call[poly/io/genbank.getFeatures]") && uncond
-		whyT = fmt.Sprintf("feature = %s, unconditional = %v", short(feat), uncond)
+		stt := holds
+		whyT := ""
+		switch {
+		case hdr == nil || featT == nil || !(featT.Op == "each" || featT.Op == "zip" || featT.Op == "index"):
+			stt, whyT = unknown, "the feature handed to AddFeature is not an element of a list walked by a loop: "+short(fmt.Sprint(featT))
+		case recv != ssa.Value(seqA):
+			stt, whyT = broken, "features are added to a sequence other than the one returned"
+		case len(hdr.Succs) == 2 && pathCond(tb, hdr.Succs[0], af.Block()).Op != "true":
+			stt, whyT = broken, "AddFeature is conditional inside the loop (under "+short(pathCond(tb, hdr.Succs[0], af.Block()).String())+"): some parsed features are not attached"
+		case !featT.contains(func(x *Term) bool { return x.isCall("poly/io/genbank.getFeatures") }):
+			stt, whyT = unknown, "the list walked is not visibly getFeatures' result: "+short(featT.String())
+		}
 		for _, r := range returnsOf(parse) {
 			if ld, ok := r.Results[0].(*ssa.UnOp); !ok || ld.X != ssa.Value(seqA) {
-				goodT = false
-				whyT = "the returned value is not the sequence the features were added to"
+				if stt == holds {
+					stt, whyT = unknown, "the returned value is not visibly the sequence the features were added to"
+				}
 			}
 		}
+		c.judge(stt, "TERM", "every parsed feature added via AddFeature, in order", parse.Pos(), "range over getFeatures' result, unconditional AddFeature on the returned sequence", whyT)
 	}
-	c.check(goodT, "TERM", "every parsed feature added via AddFeature, in order", parse.Pos(), "range over getFeatures' result, unconditional AddFeature on the returned sequence", whyT)
 
 	// ---- LOSSY
 	gf := w.fn("io/genbank", "getFeatures")
 	if gf == nil {
-		c.missing("LOSSY", "getFeatures", "genbank.getFeatures")
+		c.missingHelper("LOSSY", "getFeatures", "genbank.getFeatures")
 	} else {
 		c.useFn(gf)
-		ftb := newTB(gf)
+		ftb := newDeepTB(gf)
 		nSink := 0
 		eachInstr(gf, func(i ssa.Instruction) {
 			mu, ok := i.(*ssa.MapUpdate)
@@ -378,18 +495,24 @@ func ruleC01(c *Ctx) {
 			}, rep, map[*Term]bool{})
 			probs := append(append([]string{}, rep.lossy...), rep.unknown...)
 			sort.Strings(probs)
-			c.check(len(probs) == 0 && rep.sources > 0, "LOSSY", "qualifier value verbatim", mu.Pos(), fmt.Sprintf("value reaches Attributes through %d neutral operations only", len(rep.neutral)), strings.Join(dedupe(probs), "; "))
+			stt := holds
+			if len(rep.lossy) > 0 {
+				stt = broken
+			} else if len(rep.unknown) > 0 || rep.sources == 0 {
+				stt = unknown
+			}
+			c.judge(stt, "LOSSY", "qualifier value verbatim", mu.Pos(), fmt.Sprintf("value reaches Attributes through %d neutral operations only", len(rep.neutral)), strings.Join(dedupe(probs), "; "))
 			c.Sites += len(rep.neutral) + len(rep.lossy)
 		})
 		if nSink != 1 {
-			c.bad("LOSSY", "sink", gf.Pos(), fmt.Sprintf("%d stores into Feature.Attributes, want 1", nSink))
+			c.undecided("LOSSY", "sink", gf.Pos(), fmt.Sprintf("%d stores into Feature.Attributes in getFeatures, want 1", nSink))
 		}
 	}
 	// ---- TABLE: ORIGIN filter
 	if gs := w.fn("io/genbank", "getSequence"); gs != nil {
 		c.useFn(gs)
 		t, stb, ok := singleReturnTerm(gs, 0)
-		good := false
+		stt := unknown
 		why := "result is not regexp.ReplaceAllString(<all lines concatenated>, \"\")"
 		if ok && t.isCall("(*regexp.Regexp).ReplaceAllString") {
 			pat, okP := regexpPattern(t.Args[0])
@@ -399,27 +522,32 @@ func ruleC01(c *Ctx) {
 			if src.isCall("(*bytes.Buffer).String") || src.isCall("(*strings.Builder).String") {
 				ws := bufWrites(gs, stb, src.Args[0].String())
 				okSrc = len(ws) == 1 && ws[0].arg.String() == "each(param[0])"
+			} else if src.isCall("strings.Join") && src.Args[0].isParam(0) && src.Args[1].isConst(`""`) {
+				okSrc = true
 			}
-			if okP && repl == "" && okSrc {
+			if okP && repl == "" {
 				re, err := regexp.Compile(pat)
 				if err == nil {
-					good = true
+					stt = holds
 					var wrong []string
 					for ch := 0; ch < 128; ch++ {
 						isLetter := (ch >= 'a' && ch <= 'z') || (ch >= 'A' && ch <= 'Z')
 						deleted := re.MatchString(string(rune(ch)))
 						if deleted == isLetter {
-							good = false
+							stt = broken
 							wrong = append(wrong, fmt.Sprintf("%q", rune(ch)))
 						}
 					}
 					why = "the ORIGIN filter " + pat + " treats these characters wrongly (letters must survive, everything else go): " + strings.Join(wrong, " ")
+					if stt == holds && !okSrc {
+						stt, why = unknown, "the filter is right but it is not visibly applied to all lines concatenated in order"
+					}
 				}
 			}
 		}
-		c.check(good, "TABLE", "ORIGIN filter deletes exactly the non-letters", gs.Pos(), "all lines concatenated in order, then every non-letter removed", why)
+		c.judge(stt, "TABLE", "ORIGIN filter deletes exactly the non-letters", gs.Pos(), "all lines concatenated in order, then every non-letter removed", why)
 	} else {
-		c.missing("TABLE", "getSequence", "genbank.getSequence")
+		c.missingHelper("TABLE", "getSequence", "genbank.getSequence")
 	}
 	// ---- TABLE: LOCUS topology tokens
 	if pl := w.fn("io/genbank", "parseLocus"); pl != nil {
@@ -437,59 +565,105 @@ func ruleC01(c *Ctx) {
 			}
 			word := strings.ToLower(strings.TrimPrefix(p[0], "."))
 			pc := pathCond(ltb, pl.Blocks[0], st.Block())
-			good := false
-			desc := pc.String()
+			stt := unknown
+			desc := "no constant pattern containing the word found in the guarding condition"
+			consider := func(t *Term) {
+				t.walk(func(x *Term) {
+					y := x
+					if y.Op == "global" {
+						if it := globalInitTerm(y); it != nil {
+							it.walk(func(z *Term) {
+								if s, ok := z.constStr(); ok && strings.Contains(s, word) {
+									y = z
+								}
+							})
+						}
+					}
+					if s, ok := y.constStr(); ok && strings.Contains(s, word) {
+						delim := strings.HasPrefix(s, " ") || strings.HasPrefix(s, `\b`) || strings.HasPrefix(s, `\s`)
+						rev := strings.HasSuffix(s, " ") || strings.HasSuffix(s, `\b`) || strings.HasSuffix(s, `\s`) || strings.HasSuffix(s, `\s+`)
+						desc = fmt.Sprintf("%q", s)
+						if delim && rev {
+							stt = holds
+						} else if stt != holds {
+							stt = broken
+						}
+					}
+				})
+			}
 			for _, a := range pc.atoms() {
 				if a.Neg || a.Disj {
 					continue
 				}
-				a.Atom.walk(func(x *Term) {
-					if s, ok := x.constStr(); ok && strings.Contains(s, word) {
-						// delimited on both sides: space, \b or \s
-						delim := func(e string) bool {
-							return strings.HasPrefix(e, " ") || strings.HasPrefix(e, `\b`) || strings.HasPrefix(e, `\s`)
-						}
-						rev := func(e string) bool {
-							return strings.HasSuffix(e, " ") || strings.HasSuffix(e, `\b`) || strings.HasSuffix(e, `\s`) || strings.HasSuffix(e, `\s+`)
-						}
-						if delim(s) && rev(s) {
-							good = true
-						}
-						desc = fmt.Sprintf("%q", s)
-					}
-				})
+				consider(a.Atom)
 				// equality with a whitespace-split field is also a token match
 				if a.Atom.isBin("==") && (a.Atom.Args[0].isConst(`"`+word+`"`) || a.Atom.Args[1].isConst(`"`+word+`"`)) {
-					good = true
+					stt = holds
 				}
 			}
-			c.check(good, "TABLE", "LOCUS topology '"+word+"' matched as a whole token", st.Pos(), "pattern "+desc+" is delimited on both sides", "Locus."+strings.TrimPrefix(p[0], ".")+" is set when the LOCUS line merely contains "+desc+": a locus name containing the word sets the wrong topology")
+			// the flag may also be assigned the test's result directly
+			if v := ltb.T(st.Val); v.Op != "const" {
+				consider(v)
+				if v.isBin("==") && (v.Args[0].isConst(`"`+word+`"`) || v.Args[1].isConst(`"`+word+`"`)) {
+					stt = holds
+				}
+			}
+			c.judge(stt, "TABLE", "LOCUS topology '"+word+"' matched as a whole token", st.Pos(), "pattern "+desc+" is delimited on both sides", "Locus."+strings.TrimPrefix(p[0], ".")+" is set when the LOCUS line merely contains "+desc+": a locus name containing the word sets the wrong topology")
 		})
 	}
 
 	// ---- WRAPPERS
-	checkReturnIs(c, "WRAPPERS", "Read", w.fn("io/genbank", "Read"), 0, "call[poly/io/genbank.Parse](extract[0](call[io/ioutil.ReadFile](param[0])))", "Read(path) = Parse(ReadFile(path))")
-	checkReturnIs(c, "WRAPPERS", "ReadMulti", w.fn("io/genbank", "ReadMulti"), 0, "call[poly/io/genbank.ParseMulti](extract[0](call[io/ioutil.ReadFile](param[0])))", "ReadMulti(path) = ParseMulti(ReadFile(path))")
-	checkReturnIs(c, "WRAPPERS", "ReadFlat", w.fn("io/genbank", "ReadFlat"), 0, "call[poly/io/genbank.ParseFlat](extract[0](call[io/ioutil.ReadFile](param[0])))", "ReadFlat(path) = ParseFlat(ReadFile(path))")
-	checkReturnIs(c, "WRAPPERS", "ReadFlatGz", w.fn("io/genbank", "ReadFlatGz"), 0, "call[poly/io/genbank.ParseFlat](extract[0](call[io/ioutil.ReadAll](extract[0](call[compress/gzip.NewReader](call[bytes.NewReader](extract[0](call[io/ioutil.ReadFile](param[0]))))))))", "ReadFlatGz(path) = ParseFlat(gunzip(ReadFile(path)))")
+	checkReturnIs(c, "WRAPPERS", "Read", w.fn("io/genbank", "Read"), 0, "call[poly/io/genbank.Parse](extract[0](call[os.ReadFile](param[0])))", "Read(path) = Parse(ReadFile(path))")
+	checkReturnIs(c, "WRAPPERS", "ReadMulti", w.fn("io/genbank", "ReadMulti"), 0, "call[poly/io/genbank.ParseMulti](extract[0](call[os.ReadFile](param[0])))", "ReadMulti(path) = ParseMulti(ReadFile(path))")
+	checkReturnIs(c, "WRAPPERS", "ReadFlat", w.fn("io/genbank", "ReadFlat"), 0, "call[poly/io/genbank.ParseFlat](extract[0](call[os.ReadFile](param[0])))", "ReadFlat(path) = ParseFlat(ReadFile(path))")
+	checkReturnIs(c, "WRAPPERS", "ReadFlatGz", w.fn("io/genbank", "ReadFlatGz"), 0, "call[poly/io/genbank.ParseFlat](extract[0](call[io.ReadAll](extract[0](call[compress/gzip.NewReader](call[bytes.NewReader](extract[0](call[os.ReadFile](param[0]))))))))", "ReadFlatGz(path) = ParseFlat(gunzip(ReadFile(path)))")
 	checkReturnIs(c, "WRAPPERS", "ParseFlat", w.fn("io/genbank", "ParseFlat"), 0, `call[poly/io/genbank.ParseMulti](conv[[]byte](call[strings.Join](slice(call[strings.Split](conv[string](param[0]), const["\n"]), const[10], nil), const["\n"])))`, "ParseFlat drops exactly the 10 header lines and hands the rest to ParseMulti")
 	if pm := w.fn("io/genbank", "ParseMulti"); pm != nil {
 		c.useFn(pm)
-		t, _, ok := singleReturnTerm(pm, 0)
-		good := false
-		why := "several returns"
-		if ok {
-			sites := topAppendSites(t)
-			why = "result is " + short(t.String())
-			if len(sites) == 1 {
-				e := sites[0].Elem.String()
-				pieces := `call[strings.SplitAfter](conv[string](param[0]), const["//\n"])`
-				w1 := "call[poly/io/genbank.Parse](conv[[]byte](each(slice(" + pieces + ", nil, binop[-](call[builtin:len](" + pieces + "), const[1])))))"
-				good = e == w1
-				why = "each record is " + short(e)
+		ptb := newTB(pm)
+		// the record separator: a Split/SplitAfter of the input by a constant
+		var sepCall *Term
+		eachInstr(pm, func(i ssa.Instruction) {
+			if cl, ok := i.(*ssa.Call); ok {
+				n := calleeName(cl)
+				if n == "strings.SplitAfter" || n == "strings.Split" || n == "strings.SplitAfterN" || n == "strings.SplitN" {
+					sepCall = ptb.T(cl)
+				}
+			}
+		})
+		stt := unknown
+		why := "no split of the input by a constant record terminator found"
+		if sepCall != nil {
+			sep, okS := sepCall.Args[1].constStr()
+			src := sepCall.Args[0].String()
+			switch {
+			case !okS || src != "conv[string](param[0])":
+				why = "the input is split as " + short(sepCall.String())
+			case sepCall.Name == "strings.SplitAfter" && sep != "//\n":
+				stt, why = broken, fmt.Sprintf("records are split after %q; the terminator is \"//\" at the end of a line", sep)
+			case sepCall.Name != "strings.SplitAfter":
+				why = "records are split with " + sepCall.Name
+			default:
+				// each piece, in order, goes through Parse and is appended
+				nParse := 0
+				okEach := false
+				eachInstr(pm, func(i ssa.Instruction) {
+					if cl, ok := i.(*ssa.Call); ok && calleeName(cl) == "poly/io/genbank.Parse" {
+						nParse++
+						a := ptb.T(cl.Call.Args[0])
+						if a.Op == "conv" && (a.Args[0].Op == "each" || a.Args[0].Op == "index" || a.Args[0].Op == "zip") && strings.Contains(a.Args[0].String(), sepCall.String()) && inLoop(cl.Block()) {
+							okEach = true
+						}
+					}
+				})
+				if nParse == 1 && okEach {
+					stt = holds
+				} else {
+					why = fmt.Sprintf("%d Parse calls; each piece parsed in a loop: %v", nParse, okEach)
+				}
 			}
 		}
-		c.check(good, "WRAPPERS", "ParseMulti", pm.Pos(), "splits after every \"//\\n\" terminator and parses each piece in file order", why+"; want Parse of every piece of SplitAfter(file, \"//\\n\") in order")
+		c.judge(stt, "WRAPPERS", "ParseMulti", pm.Pos(), "splits after every \"//\\n\" terminator and parses each piece in file order", why)
 	} else {
 		c.missing("WRAPPERS", "ParseMulti", "genbank.ParseMulti")
 	}
